@@ -57,6 +57,7 @@ def get(Y, i, _to_item=True):
         return get_many(Y, i, _to_item=_to_item)
 
     Q = Y[0][0, i[0], :] if _to_item else Y[0][:, i[0], :]
+    Q = np.asarray(Q, dtype=float)
     for k in range(1, d):
         Q = Q @ Y[k][:, i[k], :]
 
@@ -112,6 +113,7 @@ def get_many(Y, I, _to_item=True):
     I = np.asanyarray(I, dtype=int)
 
     Q = Y[0][0, I[..., 0], :] if _to_item else Y[0][:, I[..., 0], :]
+    Q = np.asarray(Q, dtype=float)
     for Yk, k in zip(Y[1:], range(1, I.shape[-1])):
         Q = np.einsum('...q, q...r -> ...r', Q, Yk[:, I[..., k], :])
 
